@@ -18,6 +18,7 @@ for p in props:
              # homomorphisms of its algebra (Transfer); the property theorems restated for the executable instance
              "C02": [("ConcreteG1", "ConcreteG1")],
              "C01": [("ConcreteG2", "ConcreteG2"), ("ConcreteBridge", "Bridge")],
+             "C03": [("ConcreteBridge3", "Bridge3")],
              "C04": [("ConcreteBridge2", "Bridge2")],
              "C10": [("Transfer", "Transfer")]}
     EXTRA = {k: [(m, ns) for m, ns in v if os.path.exists(LEAN + "/ZkProofs/Props/%s.lean" % m)] for k, v in EXTRA.items()}
